@@ -368,11 +368,11 @@ pub fn test_case(c: &ServeCase, stats: &mut Stats) -> Result<(), String>
 pub fn strategy(max_rules: usize) -> impl Strategy<Value = ServeCase>
 {
     let step = prop_oneof![
-        4 => (any::<u16>(), 0u8..5).prop_map(|(leaf, content)| Op::Edit { leaf, content }),
+        4 => (any::<u16>(), 0u8..gen::N_CONTENTS).prop_map(|(leaf, content)| Op::Edit { leaf, content }),
         2 => any::<u16>().prop_map(|leaf| Op::Revert { leaf }),
         4 => prop_oneof![2 => Just(None), 1 => any::<u16>().prop_map(Some)].prop_map(|goal| Op::Build { goal }),
         2 => prop_oneof![2 => Just(None), 1 => any::<u16>().prop_map(Some)].prop_map(|goal| Op::Clean { goal }),
-        1 => (any::<u16>(), 0u8..5).prop_map(|(t, content)| Op::Tamper { t, content }),
+        1 => (any::<u16>(), 0u8..gen::N_CONTENTS).prop_map(|(t, content)| Op::Tamper { t, content }),
         1 => any::<u16>().prop_map(|t| Op::DeleteTarget { t }),
     ];
     (
